@@ -140,7 +140,17 @@ var c06Access = []struct {
 	{"un.Y * z + un.X", func(d *c06Outer) int64 { return 1 }},
 	{"un.Y", func(d *c06Outer) int64 { return 5 }},
 	{"un2.X", func(d *c06Outer) int64 { return 7 }},
+	// maps whose key type is a defined type: the template's plain string / integer key is
+	// converted to it (same kind, different type)
+	{"colors.red", func(d *c06Outer) int64 { return 0xf00 }},
+	{`colors["red"]`, func(d *c06Outer) int64 { return 0xf00 }},
+	{"colors[ck]", func(d *c06Outer) int64 { return 0xf00 }},
+	{"byID[idk]", func(d *c06Outer) int64 { return 77 }},
+	{"byID[7]", func(d *c06Outer) int64 { return 77 }},
 }
+
+type c06Color string
+type c06ID int64
 
 type c06unexp struct{ X, Y int64 }
 type C06UDeep struct{ X int64 }
@@ -196,6 +206,10 @@ func H_C06_access() {
 	vars.Set("ni", &ni)
 	vars.Set("nm", &nm)
 	vars.Set("hold", &struct{ NS c06NamedSlice }{ns})
+	vars.Set("colors", map[c06Color]int64{"red": 0xf00})
+	vars.Set("ck", "red")
+	vars.Set("byID", map[c06ID]int64{7: 77})
+	vars.Set("idk", int64(7))
 	vars.Set("un", c06UOuter{c06unexp{1, 5}, C06UMid{C06UDeep{2}}})
 	vars.Set("un2", &c06UOuter2{c06unexp{7, 8}})
 	vars.Set("sh", c06Shadow{Name: 100, C06Shadowed: C06Shadowed{Name: 200, Only: 300}})
